@@ -1185,6 +1185,7 @@ func (c *compiler) helperContextFor(arg reflect.Type, node *ast.CallExpression) 
 		Context:  c.ctx,
 		compiler: c,
 		block:    node.Block,
+		inFunc:   c.inFunc,
 	}
 
 	hv := reflect.ValueOf(hargs)
